@@ -300,7 +300,7 @@ impl StunAgent {
         skip(self),
     )]
     pub fn poll<'a>(&mut self, now: Instant) -> StunAgentPollRet<'a> {
-        let mut lowest_wait = now + Duration::from_secs(3600);
+        let mut lowest_wait: Option<Instant> = None;
         let mut timeout = None;
         let mut cancelled = None;
         for request in self.outstanding_requests.values_mut() {
@@ -314,8 +314,8 @@ impl StunAgent {
                     return StunAgentPollRet::SendData(transmit.into_owned())
                 }
                 StunRequestPollRet::WaitUntil(wait_until) => {
-                    if wait_until < lowest_wait {
-                        lowest_wait = wait_until;
+                    if lowest_wait.map_or(true, |lowest| wait_until < lowest) {
+                        lowest_wait = Some(wait_until);
                     }
                 }
                 StunRequestPollRet::TimedOut => {
@@ -334,7 +334,8 @@ impl StunAgent {
                 return StunAgentPollRet::TransactionCancelled(transaction);
             }
         }
-        StunAgentPollRet::WaitUntil(lowest_wait)
+        // with nothing outstanding there is nothing to wait for: ask to be polled again in an hour
+        StunAgentPollRet::WaitUntil(lowest_wait.unwrap_or(now + Duration::from_secs(3600)))
     }
 }
 
